@@ -323,7 +323,32 @@ def completion_unit(p, item, tier, seed):
         f = pm.define(definition)
         return [list(r) for r in f.get_truth_table()]
 
-    for name, body in (("TruthTableModel.define", tt_body), ("PyFunctionModel.define", py_body)):
+    def py_shared_body():
+        # the model's callable hands out its *stored* rows (as TruthTableModel.check does); completing the model twice
+        # with different definitions must not write into the model
+        tab_t = [list(col) for col in zip(*model_table())]
+        pm = PyFunctionModel(lambda xs: tab_t[idx_of(xs)], input_size=n, output_size=m)
+        other = {key: SB(z3.Not(v.term)) for key, v in definition.items()}
+        f1 = pm.define(other)
+        [list(r) for r in f1.get_truth_table()]
+        f2 = pm.define(definition)
+        res = [list(r) for r in f2.get_truth_table()]
+        still = pm.get_model_truth_table()
+        if any((still[k][j] is DontCare) != ((k, j) in D) for k in range(m) for j in range(rows)):
+            raise AssertionError("completing the model changed the model itself")
+        return res
+
+    def tt_via_py_body():
+        tm = TruthTableModel([["*" if (k, j) in D else False for j in range(rows)] for k in range(m)])
+        tm._table = model_table()
+        tm._table_t = [list(c) for c in zip(*tm._table)]
+        pm = PyFunctionModel(tm.check, input_size=n, output_size=m)
+        other = {key: SB(z3.Not(v.term)) for key, v in definition.items()}
+        [list(r) for r in pm.define(other).get_truth_table()]
+        return [list(r) for r in pm.define(definition).get_truth_table()]
+
+    for name, body in (("TruthTableModel.define", tt_body), ("PyFunctionModel.define", py_body),
+                       ("PyFunctionModel.define(stored rows, twice)", py_shared_body), ("PyFunctionModel(TruthTableModel.check).define twice", tt_via_py_body)):
         paths, stats = forkexec.explore(body, max_paths=100000, catch=(Exception,))
         p.case(("define", name, n, m, mask), sample=f"{name} {m}x{rows} with don't-cares at {mask}: {stats['paths']} paths" if len(p.samples) < 8 else None)
         if stats["covered"]:
@@ -346,8 +371,11 @@ def completion_unit(p, item, tier, seed):
                             "exp=[[dvals[(k,j)] if v=='*' else v for j,v in enumerate(r)] for k,r in enumerate(table)]\n"
                             "raw=[[DontCare if v=='*' else v for v in r] for r in table]\n"
                             f"name={name!r}\n"
+                            "other={k: (not v) for k,v in definition.items()}\n"
                             "try:\n    if name.startswith('TruthTable'): f=TruthTableModel(raw).define(definition)\n"
-                            "    else: f=PyFunctionModel(lambda xs: raw[0:m] and [raw[k][c12.idx_of(xs)] for k in range(m)], input_size=n, output_size=m).define(definition)\n"
+                            "    elif 'TruthTableModel.check' in name:\n        pm=PyFunctionModel(TruthTableModel(raw).check, input_size=n, output_size=m); pm.define(other).get_truth_table(); f=pm.define(definition)\n"
+                            "    elif 'stored rows' in name:\n        rows_t=[list(c) for c in zip(*raw)]; pm=PyFunctionModel(lambda xs: rows_t[c12.idx_of(xs)], input_size=n, output_size=m); pm.define(other).get_truth_table(); f=pm.define(definition)\n"
+                            "    else: f=PyFunctionModel(lambda xs: [raw[k][c12.idx_of(xs)] for k in range(m)], input_size=n, output_size=m).define(definition)\n"
                             "    got=[list(map(bool,r)) for r in f.get_truth_table()]\n    bad = got!=exp\nexcept Exception as e:\n    print(type(e).__name__, e); bad=True\n"
                             "print(bad); sys.exit(1 if bad else 0)\n")
                 return
@@ -355,7 +383,7 @@ def completion_unit(p, item, tier, seed):
 
 # ---------------------------------------------------------------- integer wrappers
 INT_FUNCS = {"id": (1, lambda a: a), "plus1": (1, lambda a: a + 1), "times3": (1, lambda a: a * 3), "add": (2, lambda a, b: a + b), "mul": (2, lambda a, b: a * b),
-             "absdiff": (2, lambda a, b: abs(a - b))}
+             "absdiff": (2, lambda a, b: abs(a - b)), "a2b": (2, lambda a, b: 2 * a + b), "first": (2, lambda a, b: a), "monus": (2, lambda a, b: max(a - b, 0))}
 
 
 def int_unit(p, item, tier, seed):
@@ -386,7 +414,8 @@ def int_unit(p, item, tier, seed):
     val = {"id": lambda: a, "plus1": lambda: a + 1, "times3": lambda: a * 3}.get(fname, lambda: None)()
     if ar == 2:
         b = num(xs[ilen:])
-        val = {"add": a + b, "mul": a * b, "absdiff": z3.If(z3.UGE(a, b), a - b, b - a)}[fname]
+        val = {"add": a + b, "mul": a * b, "absdiff": z3.If(z3.UGE(a, b), a - b, b - a), "a2b": 2 * a + b, "first": a,
+               "monus": z3.If(z3.UGE(a, b), a - b, z3.BitVecVal(0, W))}[fname]
     fits = z3.ULT(val, z3.BitVecVal(1 << olen, W)) if olen < W else z3.BoolVal(True)
     for path in paths:
         if path.exc is not None:
